@@ -63,6 +63,7 @@ def _strip(obj):
 
 def main():
     job = json.load(sys.stdin)
+    os.environ["HSVERIF_C03_SLOW"] = str(job.get("slow") or "")
     if job.get("perturb_time"):
         _perturb(job["perturb_time"])
     from hsverif.core import ensure_repo_on_path
@@ -94,6 +95,8 @@ def main():
                 s1 = np.random.get_state()
                 rng_used = rng_used or hashlib.sha1(s1[1].tobytes()).hexdigest() != np0 or s1[2] != np0pos
             deliv = [(d[1], d[2], d[3]) for d in p.deliveries]
+            if sc.extras.get("per_entity_only"):
+                deliv = []  # partitions run in threads: only per-entity histories are comparable
             h1 = hashlib.sha256(json.dumps(deliv).encode()).hexdigest()
             snap = _strip(snapshot(sc))
             per_comp = {k: hashlib.sha256(json.dumps(v, sort_keys=True, default=str).encode()).hexdigest()[:12] for k, v in snap.items()}
